@@ -25,6 +25,7 @@ type WorkerResult struct {
 	Discharged   int                `json:"discharged"`
 	Trivial      int                `json:"trivially_true_asserts"`
 	AbsImplied   int                `json:"asserts_implied_by_path_facts"`
+	PipeRestarts int                `json:"solver_pipe_restarts_after_error,omitempty"`
 	Undecided    []interp.Undecided `json:"undecided,omitempty"`
 	Cexs         []string           `json:"cex_files,omitempty"`
 	CexLabels    []string           `json:"cex_labels,omitempty"`
@@ -131,6 +132,7 @@ func RunWorker(prop, hname, tier string, caseIdx int, outDir string, verbose boo
 	res.Paths, res.Infeasible, res.Forks, res.MaxDepth = eng.Paths, eng.Infeasible, eng.Forks, eng.MaxDepth
 	res.Obligations, res.Discharged, res.Trivial = eng.Obligations, eng.Discharged, eng.Trivial
 	res.AbsImplied = eng.AbsDischarged
+	res.PipeRestarts = eng.PipeRestarts
 	res.Undecided = eng.Undecided
 	for _, c := range eng.Cexs {
 		res.Cexs = append(res.Cexs, c.File)
